@@ -70,6 +70,15 @@ Proof.
   - apply (IH ms mps C Wms).
 Qed.
 
+(* C13: the rendered move list of every game (either side moving first) consists of separately delimited tokens *)
+Theorem history_tokens b0 g0 acts : Good K b0 -> game_from_board b0 = Ok g0 -> Forall wf_action acts ->
+  let g := run K g0 acts in exists hs, history_string g = Ok hs /\ scan_moves hs = san_list g.
+Proof.
+  intros G0 Eg Wa g. destruct (GameInv_run K g0 acts g0 (GameInv_init K b0 g0 Eg) Wa) as (_ & _ & [C _] & NE & Wm & Hd). fold g in C, NE, Wm, Hd.
+  pose proof (chain_sans _ _ _ C Wm) as S. fold (san_list g) in S.
+  unfold history_string. rewrite Hd. cbn [unwrap_o bind]. eexists. split; [reflexivity|]. rewrite history_layout. apply movelist_tokens. exact S.
+Qed.
+
 (* Rb-related texts: a blank stays a blank *)
 Lemma rewrap_no91 W T : Forall2 (Rb blank) W T -> forallb okc T = true -> forallb (fun c => negb (c =? 91)) W = true.
 Proof.
